@@ -3,10 +3,13 @@ package engine
 import (
 	"github.com/nyaruka/gocommon/jsonx"
 	"github.com/nyaruka/goflow/assets"
+	"github.com/nyaruka/goflow/contactql"
 	"github.com/nyaruka/goflow/envs"
 	"github.com/nyaruka/goflow/flows"
 	"github.com/nyaruka/goflow/flows/actions"
 	"github.com/nyaruka/goflow/flows/definition"
+	"github.com/nyaruka/goflow/flows/routers"
+	"github.com/nyaruka/goflow/flows/routers/waits"
 	"github.com/nyaruka/goflow/flows/triggers"
 	"github.com/nyaruka/goflow/zzverif"
 	"time"
@@ -213,6 +216,61 @@ func VerifC02_ResultTexts() {
 	verifLazyOutcomes = false
 	verifOutcomes, verifOutcomePos = verifOutcomeRecord, 0
 	sp2, err2 := restored.Resume(verifResume(1))
+	zzverif.Assert(err1 == nil && err2 == nil, "resume failed")
+	zzverif.Assert(verifEventsJSON(sp1) == verifEventsJSON(sp2), "resuming the restored session produced different events or segments")
+	zzverif.Assert(verifMarshal(sess) == verifMarshal(restored), "resuming the restored session resulted in different session JSON")
+	zzverif.Cover("resumed-equal")
+}
+
+// VerifC02_ContactActions: a flow with a contact-changing action (any of
+// VerifC03_SprintActions' eleven kinds) before a wait and another after it,
+// each followed by a message that renders the contact (name, language,
+// field, groups, URNs, status-dependent sending), for a contact with an
+// arbitrary starting name, field and membership: the session kept in memory
+// and the session read back from its JSON at the wait produce the same events
+// and the same session JSON when resumed — whatever the engine remembers
+// about the contact between sprints must be rebuilt on read or not matter.
+// cover: restored-equal, resumed-equal
+func VerifC02_ContactActions() {
+	env := envs.NewBuilder().Build()
+	sa := verifNewAssets()
+	sa.fields = flows.NewFieldAssets([]assets.Field{&verifFieldAsset{"nick", assets.FieldTypeText}})
+	gNamed := flows.VerifQueryGroup(env, sa.fields, "b0000000-0000-4000-8000-000000000001", "Named", contactql.NewCondition(contactql.PropertyTypeAttribute, contactql.AttributeName, contactql.OpEqual, "a"))
+	zzverif.Assert(gNamed != nil, "setup: query group did not validate")
+	var groups []*flows.Group
+	sa.groups, groups = flows.VerifGroupAssets(env, sa.fields, flows.VerifStaticGroup("b0000000-0000-4000-8000-000000000002", "Static"), gNamed)
+	render := "@contact.name|@contact.language|@fields.nick|@(count(contact.groups))|@urns.twitter|@contact.timezone"
+	cats := []flows.Category{routers.NewCategory("c0", "All", verifExitUUID(9, 0, 0))}
+	router := routers.NewSwitch(waits.NewMsgWait(nil, nil), "Reply", cats, "@input.text", nil, "c0")
+	n0 := definition.NewNode(verifNodeUUID(0, 0), []flows.Action{verifContactAction("action-before-wait", "a0"), actions.NewSendMsg("m0", render, nil, nil, false)}, router,
+		[]flows.Exit{definition.NewExit(verifExitUUID(9, 0, 0), verifNodeUUID(0, 1))})
+	n1 := definition.NewNode(verifNodeUUID(0, 1), []flows.Action{actions.NewSendMsg("m1", render, nil, nil, false), verifContactAction("action-after-wait", "a1"), actions.NewSendMsg("m2", render, nil, nil, false)}, nil,
+		[]flows.Exit{definition.NewExit(verifExitUUID(9, 0, 1), "")})
+	f, err := definition.NewFlow(verifFlowUUID(0), "F0", "eng", flows.FlowTypeMessaging, 1, 10, definition.NewLocalization(), []flows.Node{n0, n1}, nil, nil)
+	zzverif.Assert(err == nil, "setup: flow did not validate")
+	sa.add(f)
+	contact := flows.NewEmptyContact(sa, []string{"Bob", "a"}[zzverif.Choice("old-name", 2)], "eng", nil)
+	contact.AddURN("twitter:bob", nil)
+	if zzverif.Choice("has-nick", 2) == 1 {
+		fd := sa.fields.Get("nick")
+		contact.Fields().Set(fd, contact.Fields().Parse(env, sa.fields, fd, "bobby"))
+	}
+	if zzverif.Choice("in-static-group", 2) == 1 {
+		contact.Groups().Add(groups[0])
+	}
+	eng := verifEngine(10, 10)
+	zzverif.ResetEnv()
+	sess, _, err := eng.NewSession(sa, triggers.NewBuilder(env, assets.NewFlowReference(verifFlowUUID(0), "F0"), contact).Manual().Build())
+	zzverif.Assert(err == nil && sess.Status() == flows.SessionStatusWaiting, "setup: session not waiting")
+	m := verifMarshal(sess)
+	restored, err := eng.ReadSession(sa, []byte(m), assets.PanicOnMissing)
+	zzverif.Assert(err == nil, "a marshalled waiting session could not be read back")
+	zzverif.Assert(verifMarshal(restored) == m, "a session read back from its JSON marshals to different JSON")
+	zzverif.Cover("restored-equal")
+	zzverif.ResetEnv()
+	sp1, err1 := sess.Resume(verifResumeText("hi"))
+	zzverif.ResetEnv()
+	sp2, err2 := restored.Resume(verifResumeText("hi"))
 	zzverif.Assert(err1 == nil && err2 == nil, "resume failed")
 	zzverif.Assert(verifEventsJSON(sp1) == verifEventsJSON(sp2), "resuming the restored session produced different events or segments")
 	zzverif.Assert(verifMarshal(sess) == verifMarshal(restored), "resuming the restored session resulted in different session JSON")
